@@ -2,6 +2,7 @@
 import Hb.Driver.MapOps
 import Hb.Driver.TableOps
 import Hb.Driver.SetOps
+import Hb.Driver.SerdeOps
 namespace Hb.Driver
 open Hb
 
@@ -10,6 +11,7 @@ def execOp (st : DState) (env : Env) (name : String) (args : List String) (other
   match st.coll with
   | "table" => execTableOp st env name args other w
   | "set" => execSetOp st env name args other w
+  | "serde" => execSerdeOp st env name args other w
   | _ => execMapOp st env name args other w
 
 /-- Run-time test of the invariant definitions on the model state (never fires unless the model or
